@@ -1,11 +1,10 @@
 (* C01 — round trip preserves the molecule's constitution. Statements only.
-   Graph level (walk -> events -> builder) is proved here for every well-formed adjacency list; the text in between
-   is C09's theorem (the reader replays the writer's history up to the documented shorthands).  The composition
-   "builder on the re-read history = builder on the history, up to the shorthands" is evaluated on the
-   implementation's outputs (C01.text_round_trip_is_isomorphic) and is the one lemma not yet proved. *)
+   Text level: write a well-formed graph, read the text, build: the result is the specification's expected graph
+   (Spec/Roundtrip.v) up to the reading shorthands.  Graph level: the renaming is injective, constitution and bonds are
+   preserved at every atom. *)
 From Coq Require Import List NArith Bool Permutation.
 Require Import P.Spec.Values P.Spec.Normal P.Spec.Events P.Spec.Graph P.Model.Base P.Model.Reader P.Model.Writer P.Model.Walk P.Model.Builder
-  P.Proofs.D1 P.Proofs.BodyFacts P.Proofs.C09_Writer P.Proofs.C09_Final P.Proofs.C12_Final P.Proofs.C01.
+  P.Proofs.D1 P.Proofs.BodyFacts P.Proofs.C09_Writer P.Proofs.C09_Final P.Proofs.C12_Final P.Proofs.C01 P.Spec.Roundtrip P.Proofs.BuilderMore P.Proofs.WalkValues P.Proofs.C01_Text.
 
 Theorem C01_graph_round_trip_preserves_constitution : forall g h, wf g = true -> safe_graph g -> walk g = (WOk, h) ->
   exists (phi : nat -> nat) g', bld h = BOk g' /\ length g' = length g /\
@@ -17,6 +16,13 @@ Proof. exact roundtrip_graph. Qed.
 Theorem C01_text_is_accepted_and_replays_history : forall h, conformant_history h -> Forall okev h ->
   exists text, wr h = Some text /\ rd text = (VOk, map nkev h).
 Proof. exact C09_inverse. Qed.
+(* every non-empty well-formed adjacency list accepted by the traversal, with kinds outside C06's known class and values
+   in range: the written text is accepted by the reader, replays the traversal's history, and builds to the expected
+   graph (depth-first renumbering, same constitution, same bonds with the same kinds as seen from each end) *)
+Theorem C01_text_round_trip : forall g h, wf g = true -> safe_graph g -> okg g -> g <> nil -> walk g = (WOk, h) ->
+  exists text, wr h = Some text /\ rd text = (VOk, map nkev h) /\ bld (map nkev h) = BOk (map nk_atom (expected_roundtrip g)).
+Proof. exact text_round_trip. Qed.
 
+Print Assumptions C01_text_round_trip.
 Print Assumptions C01_graph_round_trip_preserves_constitution.
 Print Assumptions C01_text_is_accepted_and_replays_history.
